@@ -39,7 +39,9 @@ def jobs_list(only):
             continue
         m = json.load(open(meta))
         if m.get("property"):
-            out.append((m["id"], patch, [m["property"]], "break"))
+            # "checked_by": the check that decides this change when it is not the property the
+            # change was written against (e.g. a schedule effect written against C13)
+            out.append((m["id"], patch, m.get("checked_by") or [m["property"]], "break"))
         else:
             out.append((m["id"], patch, ["C13", "C15", "C17", "C18", "C16"], "benign"))
     if only:
